@@ -280,6 +280,13 @@ class Gen:
         rs = self.ref(depth - 1) if depth > 0 and r.random() < 0.2 else None
         return model.ExternalReference(tuple(keys), rs)
 
+    LAST_KEY_TYPES = [model.KeyTypes.PROPERTY, model.KeyTypes.FILE, model.KeyTypes.SUBMODEL_ELEMENT_COLLECTION,
+                      model.KeyTypes.BLOB, model.KeyTypes.RANGE, model.KeyTypes.OPERATION, model.KeyTypes.FILE,
+                      model.KeyTypes.BASIC_EVENT_ELEMENT, model.KeyTypes.MULTI_LANGUAGE_PROPERTY, model.KeyTypes.ENTITY,
+                      model.KeyTypes.DATA_ELEMENT, model.KeyTypes.EVENT_ELEMENT, model.KeyTypes.SUBMODEL_ELEMENT,
+                      model.KeyTypes.REFERENCE_ELEMENT, model.KeyTypes.RELATIONSHIP_ELEMENT, model.KeyTypes.CAPABILITY,
+                      model.KeyTypes.ANNOTATED_RELATIONSHIP_ELEMENT, model.KeyTypes.BLOB]
+
     def model_ref(self, type_=None, depth=1):
         r = self.rng
         if type_ is model.Submodel:
@@ -292,9 +299,11 @@ class Gen:
             n = r.randint(0, 2)
             for i in range(n):
                 keys.append(model.Key(r.choice([model.KeyTypes.SUBMODEL_ELEMENT_COLLECTION, model.KeyTypes.ENTITY])
-                                      if i < n - 1 else r.choice([model.KeyTypes.PROPERTY, model.KeyTypes.FILE,
-                                                                  model.KeyTypes.SUBMODEL_ELEMENT_COLLECTION]),
+                                      if i < n - 1 else r.choice(self.LAST_KEY_TYPES),
                                       self.id_short()))
+            # AASd-127: a FragmentReference key follows a File or Blob key
+            if n and keys[-1].type in (model.KeyTypes.FILE, model.KeyTypes.BLOB) and r.random() < 0.4:
+                keys.append(model.Key(model.KeyTypes.FRAGMENT_REFERENCE, self.id_short()))
         rs = self.ref(depth - 1) if depth > 0 and r.random() < 0.2 else None
         return model.ModelReference(tuple(keys), type_, rs)
 
@@ -307,6 +316,39 @@ class Gen:
             kw["semantic_id"] = self.ref()
             if self.opt():
                 kw["supplemental_semantic_id"] = [self.ref() for _ in range(self.rng.randint(1, 2))]
+
+    # ---- near-duplicates: members of unordered collections that differ in ONE attribute only (an equality, hash or
+    #      sort key that ignores that attribute merges or confuses them)
+    P_NEARDUP = 0.3
+
+    def ref_sibling(self, ref):
+        """same keys and type, different referred_semantic_id"""
+        rs = None if ref.referred_semantic_id is not None else self.ext_ref(0)
+        if isinstance(ref, model.ModelReference):
+            return model.ModelReference(ref.key, ref.type, rs)
+        return model.ExternalReference(ref.key, rs)
+
+    def refs(self, n, make):
+        out = [make() for _ in range(n)]
+        if self.rng.random() < self.P_NEARDUP:
+            out.append(self.ref_sibling(out[0]))
+        return out
+
+    def specific_asset_ids(self, n):
+        out = [self.specific_asset_id() for _ in range(n)]
+        if self.rng.random() < self.P_NEARDUP:
+            a = out[0]
+            k = self.rng.randrange(3)
+            sem = a.semantic_id
+            sup = list(a.supplemental_semantic_id)
+            if k == 0 or sem is None:
+                sem = self.ref_sibling(sem) if (sem is not None and self.rng.random() < 0.5) else self.ext_ref(0)
+            elif k == 1:
+                sup = sup + [self.ref()]
+            else:
+                sup = list(reversed(sup)) if len(sup) > 1 and sup[0] != sup[-1] else sup + [self.ext_ref(0)]
+            out.append(model.SpecificAssetId(a.name, a.value, a.external_subject_id, sem, sup))
+        return out
 
     def qualifier(self):
         self.counter += 1
@@ -335,7 +377,7 @@ class Gen:
                     v = None
                 kw["value"] = v
         if self.opt():
-            kw["refers_to"] = [self.model_ref() for _ in range(self.rng.randint(1, 2))]
+            kw["refers_to"] = self.refs(self.rng.randint(1, 2), self.model_ref)
         self.common_sem(kw)
         return model.Extension(**kw)
 
@@ -354,7 +396,10 @@ class Gen:
         if self.opt():
             kw["unit_id"] = self.ref()
         if self.opt():
-            kw["value_list"] = {model.ValueReferencePair(self.text(2000), self.ref()) for _ in range(r.randint(1, 2))}
+            vl = [model.ValueReferencePair(self.text(2000), self.ref()) for _ in range(r.randint(1, 2))]
+            if r.random() < self.P_NEARDUP:
+                vl.append(model.ValueReferencePair(vl[0].value, self.ref_sibling(vl[0].value_id)))
+            kw["value_list"] = set(vl)
         if self.opt():
             kw["value"] = self.text(2000)
         if self.opt():
@@ -397,7 +442,7 @@ class Gen:
         if both < 0.7:
             kw["global_asset_id"] = self.ident("asset")
         if both > 0.4:
-            kw["specific_asset_id"] = [self.specific_asset_id() for _ in range(r.randint(1, 2))]
+            kw["specific_asset_id"] = self.specific_asset_ids(r.randint(1, 2))
         if self.opt():
             kw["asset_type"] = self.ident("type")
         if self.opt():
@@ -508,9 +553,9 @@ class Gen:
                 if r.random() < 0.6:
                     kw["global_asset_id"] = self.ident("asset")
                 else:
-                    kw["specific_asset_id"] = [self.specific_asset_id()]
+                    kw["specific_asset_id"] = self.specific_asset_ids(1)
                 if r.random() < 0.3 and "specific_asset_id" not in kw:
-                    kw["specific_asset_id"] = [self.specific_asset_id()]
+                    kw["specific_asset_id"] = self.specific_asset_ids(1)
             kw["statement"] = [self.submodel_element(depth - 1) for _ in range(r.randint(0, 2))]
             return model.Entity(ids, et, **kw)
         if k == "BasicEventElement":
@@ -550,7 +595,7 @@ class Gen:
         self.referable_kw(kw, sme=False)
         self.identifiable_kw(kw)
         if self.opt():
-            kw["is_case_of"] = {self.ref() for _ in range(r.randint(1, 2))}
+            kw["is_case_of"] = set(self.refs(r.randint(1, 2), self.ref))
         if "embedded_data_specifications" not in kw and r.random() < 0.6:
             kw["embedded_data_specifications"] = [self.eds()]
         return model.ConceptDescription(self.ident("cd"), **kw)
@@ -563,6 +608,8 @@ class Gen:
         refs = {model.ModelReference.from_referable(s) for s in submodels if r.random() < 0.8}
         if self.opt():
             refs.add(self.model_ref(model.Submodel))
+        if refs and r.random() < self.P_NEARDUP:
+            refs.add(self.ref_sibling(min(refs, key=repr)))
         if refs:
             kw["submodel"] = refs
         if self.opt():
@@ -656,9 +703,19 @@ def canon_leaf(v):
     return ["?" + t.__name__, repr(v)]
 
 
+def _drop_type(x):
+    if isinstance(x, dict):
+        return {k: _drop_type(v) for k, v in x.items() if k != "_type"}
+    if isinstance(x, list):
+        return [_drop_type(v) for v in x]
+    return x
+
+
 def _sortkey(x):
+    """order of the members of unordered collections in the canonical form; independent of ModelReference.type (`_type`),
+    which is a Python typing aid that readers re-derive from the keys, so that the order survives dropping it"""
     import json
-    return json.dumps(x, sort_keys=True, default=str)
+    return json.dumps(_drop_type(x), sort_keys=True, default=str)
 
 
 def meta_class_name(obj):
